@@ -72,6 +72,7 @@ func suite(quick bool) hlib.Suite {
 
 func checkConfig(r *hlib.Rec, vol float64, R, f, peak, sigma time.Duration, w []float64) {
 	input := fmt.Sprintf("volume=%v repeat=%s frequency=%s peak=%s stddev=%s weights=[%s]", vol, R, f, peak, sigma, wstr(w))
+	r.SampleCase(input)
 	rates, err := gaussian.CalculateGaussianRate(vol, 0, R, f, peak, sigma, wstr(w), "none")
 	if err != nil {
 		r.Fail("C11/rejected", "valid-config", err.Error(), input)
